@@ -49,8 +49,9 @@ def keyswitch_entry_by_interpretation(chk, v, e):
             self.live, self.snap = {}, {}
             self.rows, self.init, self.translated = [], [], 0
 
-        def segment(self, env=None):
-            self.snap = dict(self.live)
+        def segment(self, env=None, loop=None):
+            keep = set((loop or {}).get("derived") or ())      # derived variables are expressed over their value at loop entry
+            self.snap = {k_: (self.snap[k_] if k_[1] in keep and k_ in self.snap else v_) for k_, v_ in self.live.items()}
 
         # ---- pointers: (array, offset) with array in {"raw", "a"}; rows of the key resolve to offsets of ks0_raw
         def pval(self, t, env):
